@@ -80,6 +80,12 @@ func (sp SkipPredicates) Add(podID common_info.PodID, predicateName k8s_internal
 	sp[podID][predicateName] = true
 }
 
+func (sp SkipPredicates) Remove(podID common_info.PodID, predicateName k8s_internal.PredicateName) {
+	if _, found := sp[podID]; found {
+		delete(sp[podID], predicateName)
+	}
+}
+
 func (sp SkipPredicates) ShouldSKip(podID common_info.PodID, predicateName k8s_internal.PredicateName) bool {
 	if _, found := sp[podID]; !found {
 		return false
@@ -132,6 +138,10 @@ func evaluateTaskOnPrePredicate(task *pod_info.PodInfo, k8sPredicates k8s_intern
 		nodes, status := predicate.PreFilter(task.Pod)
 		if status.IsSkip() {
 			skipPredicates.Add(task.UID, name)
+		} else {
+			// the pre-filter is evaluated again on every placement attempt of the session; a skip recorded by an
+			// earlier attempt must not outlive a later evaluation that needs the filter
+			skipPredicates.Remove(task.UID, name)
 		}
 
 		if status.AsError() != nil {
